@@ -1,9 +1,26 @@
 package c17
 
 import (
+	"encoding/json"
+	"os"
 	"testing"
 
+	"google.golang.org/protobuf/internal/flags"
 	"google.golang.org/protobuf/zverif/pbt"
 )
 
-func TestZZReplay(t *testing.T) { pbt.Replay(t) }
+func TestZZReplay(t *testing.T) {
+	// A case of the legacy leg (lazy extensions) means nothing in a binary built without
+	// -tags protolegacy; replay files do not record their leg and `verif replay` builds the first one.
+	if pbt.ReplayPath != "" && !flags.LazyUnmarshalExtensions {
+		if b, err := os.ReadFile(pbt.ReplayPath); err == nil {
+			var rf struct {
+				Test string `json:"test"`
+			}
+			if json.Unmarshal(b, &rf) == nil && rf.Test == extProp.Name {
+				t.Fatalf("replay: %s is a case of the legacy leg; run it with\n  cd /verif/harness && VERIF_REPLAY=%s go test -vet=off -tags verif,protolegacy ./c17", pbt.ReplayPath, pbt.ReplayPath)
+			}
+		}
+	}
+	pbt.Replay(t)
+}
